@@ -270,6 +270,36 @@ theorem handleData_routed (c : Cmd) :
   · exact handleEval_routed cfg cm backend none c d hd
   · simp only [List.mem_singleton] at hd; subst hd; exact sendOne_routed _ _ _ _
 
+/-- with a redirection mark (a command unwrapped from `UMFORWARD t`): the sub-commands the handlers
+build are routed as fresh commands, the command itself (single-key, EVAL/EVALSHA, the MSETNX groups)
+with the mark -/
+theorem handleData_routed_rt (rt : Option Nat) (c : Cmd) :
+    ∀ d ∈ (handleData cfg cm backend rt c).dispatched, Routed cfg cm none d ∨ Routed cfg cm rt d := by
+  intro d hd
+  unfold handleData at hd
+  simp only at hd
+  repeat' split at hd
+  · exact Or.inl (handleMget_routed cfg cm backend c d hd)
+  · exact Or.inl (handleMset_routed cfg cm backend c d hd)
+  · exact Or.inr (handleMsetnx_routed cfg cm backend rt c d hd)
+  · exact Or.inl (handleMultiInt_routed cfg cm backend _ c d hd)
+  · exact Or.inl (handleBlocking_routed cfg cm backend _ c d hd)
+  · exact Or.inr (handleEval_routed cfg cm backend rt c d hd)
+  · simp only [List.mem_singleton] at hd; subst hd; exact Or.inr (sendOne_routed _ _ _ _)
+
+/-- `handle_umforward` on a well-formed wrapper is `handle_data_cmd` on the inner command with the
+redirection mark -/
+theorem handleUmforward_unwrap (name ts : Bytes) (t : Nat) (c : Cmd)
+    (hutf : validUtf8 ts = true) (ht : parseUsize ts = some t) (hc : c ≠ []) :
+    handleUmforward cfg cm backend (some name :: some ts :: c) = handleData cfg cm backend (some t) c := by
+  have e1 : elem (some name :: some ts :: c) 1 = some ts := rfl
+  have hd : (some name :: some ts :: c).drop 2 = c := rfl
+  have he : c.isEmpty = false := by cases c with
+    | nil => exact absurd rfl hc
+    | cons _ _ => rfl
+  unfold handleUmforward
+  simp only [e1, hutf, ht, hd, he, Bool.not_true, Bool.false_eq_true, if_false]
+
 /-! ## accepted multi-key commands: one target for every sub-command (active redirection off) -/
 
 theorem handleMget_same_target (c : Cmd) (har : cfg.activeRedirection = false)
